@@ -15,7 +15,7 @@ Lemma selected_exact (by_uid : bool) ks mb :
   str_eqb (to_upper (nth 0 (fields (print_prog ks)) [])) (S_ "CHARSET") = false ->
   search_selected go_text (fields (print_prog ks)) by_uid (to_msgs mb)
   = ROk (map (if by_uid then m_uid else m_seq)
-           (map to_msg (filter (fun '(i, m) => spec_all (Z.of_nat (length mb)) (max_uid mb) ks i m) (numbered mb)))).
+           (map (to_msg mb) (filter (fun '(i, m) => spec_all (Z.of_nat (length mb)) (max_uid mb) ks i m) (numbered mb)))).
 Proof.
   intros W Hmb C NC. unfold classify_line in C. destruct (fields_stable (print_prog ks)) eqn:FS; [|discriminate].
   unfold fields_stable in FS. apply str_eqb_eq in FS.
@@ -23,7 +23,7 @@ Proof.
   destruct (fields (print_prog ks)) as [|f1 fs] eqn:F.
   - cbn [join] in FS. rewrite <- FS in NB. now contradiction NB.
   - unfold search_selected. cbn [nth] in NC. cbn [length Nat.ltb Nat.leb nth]. rewrite NC, andb_false_r. cbn [andb skipn].
-    rewrite FS. now rewrite (evaluate_exact ks mb W Hmb C).
+    rewrite FS, fill_max_to_msgs. now rewrite (evaluate_exact ks mb W Hmb C).
 Qed.
 
 Theorem search_cmd_exact tag cmd ks mb :
